@@ -204,11 +204,12 @@ func (k *pkey) histName(h []int) string {
 }
 
 type pstate struct {
-	ct    *paillier.Ciphertext
-	m     refp.Model
-	root  bool
-	dead  bool
-	fails []fail
+	preferSK bool
+	ct       *paillier.Ciphertext
+	m        refp.Model
+	root     bool
+	dead     bool
+	fails    []fail
 }
 
 func (s *pstate) failf(key, format string, a ...any) {
@@ -228,10 +229,12 @@ func (k *pkey) agree(ns *pstate, op string, a *paillier.Ciphertext, ea error, b 
 	if a != nil && b != nil && !bytes.Equal(a.Bytes(), b.Bytes()) {
 		ns.failf("paillier/sk-vs-pk/"+op, "SecretKey %s gives %x, PublicKey %s gives %x", op, b.Bytes(), op, a.Bytes())
 	}
-	if a != nil {
-		return a
+	// both results are byte-equal (or a failure was recorded); alternate which object the history continues with, so
+	// that ciphertext objects produced by one path are consumed by the other path as well
+	if a == nil || (ns.preferSK && b != nil) {
+		return b
 	}
-	return b
+	return a
 }
 
 func (k *pkey) wantPlain(ns *pstate, tag string, got *paillier.Plaintext, err error, want *big.Int) {
@@ -274,11 +277,11 @@ func (k *pkey) freshCt(op int) (*paillier.Ciphertext, error) {
 }
 
 // step applies operation op to the parent state on the real implementation (both paths) and on the model.
-func (k *pkey) step(par *pstate, op int) (ns *pstate, ok bool) {
+func (k *pkey) step(par *pstate, op int, lvl int) (ns *pstate, ok bool) {
 	if par.dead || (par.root && op >= opSelf) {
 		return nil, false
 	}
-	ns = &pstate{}
+	ns = &pstate{preferSK: lvl%2 == 0} // even levels continue with the SecretKey result, odd ones with the PublicKey result
 	defer func() {
 		if r := recover(); r != nil {
 			if he, isH := r.(engine.HarnessError); isH {
@@ -434,7 +437,7 @@ func (k *pkey) build(hist []int) (*pstate, bool) {
 			return nil, false
 		}
 	}
-	ns, ok := k.step(par, hist[len(hist)-1])
+	ns, ok := k.step(par, hist[len(hist)-1], len(hist))
 	if ok && len(hist) < k.depth {
 		// only the first history that reaches a state is ever extended by the search (same key as Canon)
 		if c := k.canon(ns, hist); c == "" || !k.cached[c] {
